@@ -130,6 +130,27 @@ func (o *WireOracles) peerTPs(a *wConnAcct, dir int) ([]TapTP, bool) {
 	return nil, false
 }
 
+// clientInitialHeaderDamaged: has the network changed a byte in the long header of a client Initial packet (or cut the
+// datagram inside it) in this run? (Called with the world's lock held.)
+func (o *WireOracles) clientInitialHeaderDamaged() bool {
+	for _, rec := range o.w.Log[0] {
+		if !rec.Damaged {
+			continue
+		}
+		for _, f := range rec.Faults {
+			if f.Kind != "corrupt" && f.Kind != "trunc" {
+				continue
+			}
+			for _, pk := range rec.Pkts {
+				if pk.Type == TapInitial && int(f.A) >= pk.Off && int(f.A) < pk.Off+max(pk.HdrLen, 7) {
+					return true
+				}
+			}
+		}
+	}
+	return false
+}
+
 func (o *WireOracles) onSend(rec *DgramRec, data []byte) {
 	if o.muted {
 		return
@@ -144,6 +165,14 @@ func (o *WireOracles) onSend(rec *DgramRec, data []byte) {
 			// the server refuses the ClientHello (by construction of the scenario) and says so at the Handshake and 1-RTT levels
 			// too, without a ServerHello from which the observer could derive those keys
 			o.res.Probe("close-at-higher-levels-without-server-hello")
+			continue
+		}
+		if p.Dir == 1 && p.Conn == nil && p.Type != TapUnknown && p.Err == "long-header packet for an unknown connection" && o.clientInitialHeaderDamaged() {
+			// The header of an Initial packet is not protected on its own: one that arrives with its connection ID bytes (or
+			// their length) changed is a valid-looking first packet of a connection under IDs the client never chose. The
+			// server creates that connection, cannot open the packet, and says goodbye to it - to IDs no observer knows - when
+			// it gives up or shuts down.
+			o.res.Probe("server-connection-from-an-initial-with-a-damaged-header")
 			continue
 		}
 		if p.Type == TapUnknown {
